@@ -350,17 +350,16 @@ def _pp(e, m):
 
 
 def pp_target(t, m):
-    """an assignable: variable, `l an der Stelle i`, `f von p`"""
+    """an assignable (expressions.go `assigneable`): IDENT {von IDENT | von ( assignable )} {an der Stelle unary}"""
     if t[0] == "var":
         return t[1]
     if t[0] == "bin" and t[1] == "index":
-        inner = pp_target(t[2], m)
-        if t[2][0] != "var":
-            inner = "(" + inner + ")"
-        return "%s an der Stelle %s" % (inner, pp_expr(t[3], m, P_PRIMARY))
+        if t[2][0] == "bin":
+            raise ValueError("nested index target")
+        return "%s an der Stelle %s" % (pp_target(t[2], m), pp_expr(t[3], m, P_UNARY))
     if t[0] == "field":
         inner = pp_target(t[2], m)
-        if t[2][0] != "var":
+        if t[2][0] == "bin":
             inner = "(" + inner + ")"
         return "%s von %s" % (t[1], inner)
     raise ValueError(t)
@@ -464,6 +463,41 @@ def pp_func(f, m, types):
     lines.append("Und kann so benutzt werden:")
     lines.append('\t"%s"' % " ".join([f["name"]] + ["<%s>" % n for n, _, _ in ps]))
     return lines
+
+
+def _public(lines):
+    """marks the declaration starting at lines[0] as public"""
+    first = lines[0]
+    for art in ("Der ", "Die ", "Das "):
+        if first.startswith(art):
+            adj = "öffentliche "
+            return [art + adj + first[len(art):]] + lines[1:]
+    if first.startswith("Wir nennen die Kombination aus"):
+        out = [first.replace("die Kombination", "die öffentliche Kombination")]
+        for l in lines[1:]:
+            if l.startswith("\tder ") or l.startswith("\tdem "):
+                l = l[:5] + "öffentlichen " + l[5:]
+            out.append(l)
+        return out
+    return lines
+
+
+def pp_modules(p, minimal=False, lib="lib"):
+    """the same program as two files: Kombinationen, functions and the first `lib_count` globals
+    are public declarations of the imported module"""
+    types = p.get("types", {})
+    k = p.get("lib_count", 0)
+    lines = ['Binde "Duden/Ausgabe" ein.', ""]
+    for n, fs in p["structs"]:
+        lines += _public(pp_struct(n, fs, minimal)) + [""]
+    for g in p["globals"][:k]:
+        lines += _public(pp_stmt(g, 0, minimal, types))
+    for f in p["funcs"]:
+        lines += [""] + _public(pp_func(f, minimal, types)) + [""]
+    main = ['Binde "Duden/Ausgabe" ein.', 'Binde "%s" ein.' % lib, ""]
+    main += pp_block(p["globals"][k:], 0, minimal, types)
+    main += pp_block(p["main"], 0, minimal, types)
+    return {lib + ".ddp": "\n".join(lines) + "\n", "main.ddp": "\n".join(main) + "\n"}
 
 
 def pp_program(p, minimal=False, types=None):
@@ -1064,9 +1098,18 @@ class Gen:
             for _ in range(r.below(3)):
                 self.struct_decl()
         globals_ = []
+        lib_count = 0
+        if self.feat("modules", False):
+            # the first globals live in the imported module; functions see only those
+            for _ in range(r.below(3)):
+                globals_.append(self.decl(d=1))
+            lib_count = len(globals_)
+            if self.feat("funcs"):
+                for _ in range(r.below(4) + 1):
+                    self.func_decl()
         for _ in range(r.below(4) + 2):
             globals_.append(self.decl(d=1))
-        if self.feat("funcs"):
+        if self.feat("funcs") and not self.feat("modules", False):
             for _ in range(r.below(4)):
                 self.func_decl()
         main = []
@@ -1076,4 +1119,4 @@ class Gen:
         for n, t, _ in list(self.scopes[0].vars):
             main += self.dump(n, t)
         main.append(("println", ("text", [])))
-        return dict(structs=self.structs, globals=globals_, funcs=self.funcs, main=main, types=self.types)
+        return dict(structs=self.structs, globals=globals_, funcs=self.funcs, main=main, types=self.types, lib_count=lib_count)
